@@ -160,6 +160,7 @@ func (tmg *TCPMuxGroup) worker() {
 			tmg.acceptCh <- c
 		})
 		if err != nil {
+			c.Close()
 			return
 		}
 	}
